@@ -24,7 +24,7 @@ EXTENDS Dataflow, Json
 
 CONSTANTS MaxOps,      \* programs have at most MaxOps top-level operators
           Level,       \* 1: core operator set, 2: extended operator set
-          InputSet,    \* "quick" | "mid" | "full"
+          InputSet,    \* "quick" | "curated" | "mid" | "full"
           Emit,        \* TRUE: print JSON cases
           EmitPlain    \* states in which no rule fires are printed only for the curated inputs with these indices
 
@@ -180,7 +180,7 @@ PSKOp(op, parents, acc) ==
               LET RECURSIVE Legs(_, _)
                   Legs(m, a) ==      \* a = [legs, keys, taint, rules]
                     IF m > Len(op.legs) THEN a
-                    ELSE LET sub == PSK(op.legs[m], <<[parent EXCEPT !.multi = FALSE]>>, [taint |-> a.taint, rules |-> a.rules])
+                    ELSE LET sub == PSK(op.legs[m], <<parent>>, [taint |-> a.taint, rules |-> a.rules])
                          IN Legs(m + 1, [legs |-> Append(a.legs, sub.seq), keys |-> a.keys \o sub.keys,
                                          taint |-> sub.taint, rules |-> sub.rules])
                   res == Legs(1, [legs |-> <<>>, keys |-> <<>>, taint |-> acc.taint, rules |-> acc.rules])
@@ -343,8 +343,12 @@ RECURSIVE SeqsUpTo(_, _)
 SeqsUpTo(S, n) == IF n = 0 THEN {<<>>}
                   ELSE LET prev == SeqsUpTo(S, n - 1) IN prev \cup {Append(s, x) : s \in {t \in prev : Len(t) = n - 1}, x \in S}
 MidRecs == {R(a, b) : a \in {0, 1, -1, -2}, b \in {0, 2, -1}}
+\* "quick": ten of the curated inputs (sorted asc / desc with and without nulls,
+\* unsorted with duplicate keys, null and missing in both fields, adjacent duplicates)
+CoreIx == {1, 9, 10, 17, 18, 19, 22, 23, 24, 27}
 InputsOf ==
-  IF InputSet = "quick" THEN SeqRange(QuickInputs)
+  IF InputSet = "quick" THEN {QuickInputs[i] : i \in CoreIx}
+  ELSE IF InputSet = "curated" THEN SeqRange(QuickInputs)
   ELSE IF InputSet = "mid" THEN SeqRange(QuickInputs) \cup SeqsUpTo(MidRecs, 2) \cup SeqsUpTo({R(0, 1), R(1, 0), R(-1, 2), R(-2, 0)}, 3)
   ELSE SeqRange(QuickInputs) \cup SeqsUpTo(AllRecs, 2) \cup SeqsUpTo(MidRecs, 3)
 
